@@ -3,6 +3,8 @@
 //! FetchBalances requests over the request channel, with advancing (and tying) request times under tokio's paused clock,
 //! and (b) directly (`open_order` + `ack_trade` as `run()` does, then `AccountState::trades(time_since)` and
 //! `account_snapshot()`), and compares with a ledger of the accepted orders.
+//! Request times are also NON-MONOTONE (fills are stamped from the requesting client's clock: fills at t=5, t=10, then t=6): a trade
+//! query returns exactly the fills with time_exchange >= time_since in the order they were made, whatever the order of their stamps.
 use crate::{eng::Rng, report};
 use barter_execution::{
     UnindexedAccountSnapshot,
@@ -32,6 +34,8 @@ use tokio::sync::{broadcast, mpsc, oneshot};
 const L_INCLUSIVE: &str = "C08.bounded.trades_query_inclusive_at_fill_time";
 const L_EXACT: &str = "C08.bounded.trades_query_exactly_the_accepted_fills";
 const L_DIRECT: &str = "C08.bounded.trades_query_account_state";
+/// the fills were not made in time_exchange order (fills are stamped from the REQUEST's clock: a second client / a lagging clock)
+const L_OOO: &str = "C08.bounded.trades_query_out_of_order_times";
 const L_SNAP_BAL: &str = "C08.bounded.snapshot_balances_equal_ledger";
 const L_SNAP_ORD: &str = "C08.bounded.snapshot_no_resting_orders";
 const L_SNAP_FETCH: &str = "C08.bounded.snapshot_agrees_with_fetch_balances";
@@ -131,7 +135,8 @@ impl Checker<'_> {
         let want: Vec<&T> = accepted.iter().filter(|t| t.time_exchange >= since).collect();
         if got.iter().collect::<Vec<_>>() != want {
             let tie = accepted.iter().any(|t| t.time_exchange == since);
-            let label = if direct { L_DIRECT } else if tie { L_INCLUSIVE } else { L_EXACT };
+            let monotone = accepted.windows(2).all(|w| w[0].time_exchange <= w[1].time_exchange);
+            let label = if !monotone { L_OOO } else if direct { L_DIRECT } else if tie { L_INCLUSIVE } else { L_EXACT };
             let rel = since.signed_duration_since(t0());
             self.fail(label, format!("{path}(time_since = t0{:+}ms) -> [{}]", rel.num_milliseconds(), got.iter().map(brief).collect::<Vec<_>>().join(", ")),
                 format!("exactly the accepted orders' fills with time_exchange >= time_since, in order: [{}]", want.iter().map(|t| brief(t)).collect::<Vec<_>>().join(", ")));
@@ -274,6 +279,48 @@ pub fn run(seed: u64, thorough: bool) -> u64 {
                 if code % 4 == 0 || thorough { case_direct(&steps, fee, &mut seen); }
                 n += 1;
             }
+        }
+        // NON-MONOTONE exchange times: every assignment of request times from {0, 5, 6, 10} ms (and the same in seconds) to 3 (thorough: 4)
+        // accepted market orders - contains (5, 10, 6): fills at t=5, t=10, then t=6 - optionally with a rejected request in between;
+        // `queries` asks before / at / after every request and fill time, i.e. also BETWEEN the fill times
+        let grid = [0i64, 5, 6, 10];
+        for len in 2..=if thorough { 4usize } else { 3 } {
+            for code in 0..grid.len().pow(len as u32) {
+                for variant in 0..if thorough { 8u8 } else { 4 } {
+                    let (scale, reject_at) = (if variant & 1 == 0 { 1 } else { 1000 }, if variant & 2 == 0 { None } else { Some(1usize) });
+                    let mut c = code;
+                    let mut at = 0i64;
+                    let mut steps: Vec<Step> = vec![];
+                    for k in 0..len {
+                        let t = grid[c % grid.len()] * scale; c /= grid.len();
+                        if reject_at == Some(k) { steps.push(Step { dt_ms: 0, kind: if k % 2 == 0 { Kind::TooBig } else { Kind::UnknownInstrument }, qty: dec!(1) }); }
+                        steps.push(Step { dt_ms: t - at, kind: if (k + (variant as usize >> 2)) % 2 == 0 { Kind::Buy } else { Kind::Sell }, qty: Decimal::from(1 + k as i64) });
+                        at = t;
+                    }
+                    let fee = if variant & 4 == 0 { dec!(0) } else { dec!(0.1) };
+                    case_run_loop(&steps, fee, if code % 3 == 1 { 6 } else { 0 }, &mut seen).await;
+                    case_direct(&steps, fee, &mut seen);
+                    n += 1;
+                }
+            }
+        }
+        // seeded random with clocks that step back (two clients: each request is stamped from one of two clocks, one lagging)
+        let mut rng = Rng::seeded(seed, 9);
+        for _ in 0..if thorough { 10_000 } else { 200 } {
+            let len = 2 + rng.below(7) as usize;
+            let lag = [1i64, 4, 1000, 3500][rng.below(4) as usize];
+            let (mut clock, mut at) = (0i64, 0i64);
+            let steps: Vec<Step> = (0..len).map(|_| {
+                clock += match rng.below(4) { 0 => 0, 1 => 1, 2 => 5, _ => rng.below(3_000) as i64 };
+                let t = if rng.chance(1, 3) { (clock - lag).max(0) } else { clock };
+                let s = Step { dt_ms: t - at, kind: match rng.below(8) { 0 => Kind::TooBig, 1 => Kind::UnknownInstrument, 2 | 3 | 4 => Kind::Sell, _ => Kind::Buy }, qty: Decimal::new(1 + rng.below(20) as i64, 1) };
+                at = t;
+                s
+            }).collect();
+            let fee = [dec!(0), dec!(0.1)][rng.below(2) as usize];
+            case_run_loop(&steps, fee, [0, 6][rng.below(2) as usize], &mut seen).await;
+            case_direct(&steps, fee, &mut seen);
+            n += 1;
         }
         // seeded random, longer
         let mut rng = Rng::seeded(seed, 8);
